@@ -228,6 +228,28 @@ def generate(rng, focus, tier="quick"):
         sh["now"] = t_w
         emit({"k": "tick", "t": t_w, "why": "inhours"})
 
+    if "C15" in focus and not wide and max_pf >= 2 and rng.random() < 0.12:
+        # nothing is held yet: two portfolios with DIFFERENT clocks (one gets a transfer after the clock has moved
+        # on through closed hours), an order pending in the later one, then a step back to an in-hours instant
+        # between the two portfolio clocks - illegal only because of that pending order
+        pid2 = pids_run[1]
+        sh["pids"].append(pid2)
+        emit({"k": "mkpf", "pid": pid2})
+        emit({"k": "psub", "pid": pid2, "amt": {"v": rng.choice([1e3, 1e4])}})
+        for _ in range(rng.randrange(1, 4)):
+            _, t_p = timegen.next_instant(rng, sh["now"], rng.choice(["overnight", "sat", "sun", "close_p1", "inhours"]))
+            sh["now"] = t_p
+            emit({"k": "tick", "t": t_p, "why": "prelude"})
+        pid_x = rng.choice(sh["pids"])
+        emit({"k": "psub", "pid": pid_x, "amt": {"v": rng.choice([0.0, 1.0, 250.0])}})
+        emit({"k": "order", "pid": pid_x, "asset": rng.choice(assets), "qty": {"v": _qty(rng)}})
+        cand = sh["now"] - rng.choice([1, 60, 1800])
+        for _ in range(400):
+            if is_open_ref(cand):
+                break
+            cand -= 1800
+        emit({"k": "tick", "back": max(1, sh["now"] - cand), "stay": rng.random() < 0.5, "fault": "clock_regress_pending"})
+
     def fault_op():
         kind = rng.choice(enabled)
         pid = rng.choice(sh["pids"]) if sh["pids"] else pids_run[0]
